@@ -163,9 +163,12 @@ SyntaxVisitor::Action DeclarationBinder::visitFieldDeclaration_AtDeclarators(
 {
     if (!node->declarators()) {
         TY_AT_TOP(auto ty, Action::Quit);
-        PSY_ASSERT_2(ty->kind() == TypeKind::Tag, return Action::Quit);
-        auto tagTy = ty->asTagType();
-        if (tagTy->isUntagged()) {
+        // The specifiers may be qualified, as in `const struct { int a; };'.
+        auto unqualTy = ty->kind() == TypeKind::Qualified
+                ? ty->asQualifiedType()->unqualifiedType()
+                : ty;
+        if (unqualTy->kind() == TypeKind::Tag
+                && unqualTy->asTagType()->isUntagged()) {
             bindAnonymousFieldDeclaration(node);
             typeDeclarationAtTopWithTypeAtTop();
             popTypesUntilNonDerivedDeclaratorType();
